@@ -20,13 +20,13 @@ oracle(seed, scale)        the property laws on the implementation alone.  Defec
     union-firstmatch-lossy            C14  an earlier dataclass member accepts the payload and drops its extra keys
     union-prim-coercion               C14  Union[str, int]: 5 ↦ "5" (members are tried by CALLING them)
     error-path-lost-through-optional  C16  below an Optional/union field the inner field path is not reported
-    serializer-dict-leaks-instance    C16  serialize({"k": node}) leaves forward-referenced children as live instances
-    serializer-registry-dependent     C16  keys of an instance held by a dict: python names before / wire names after its
-                                           class was registered
   Classes that would be NEW findings: leaf-uuid-unsupported, leaf-time-unsupported (F10, repaired: a conforming document with
   a uuid.UUID / datetime.time value does not decode, or such a value is not written as a string), serializer-cycle-recursion
   (F26, repaired: a reference cycle that cattrs walks itself - resolved annotation, Any, dict - ends in RecursionError or in a
-  copy unrolled to the recursion limit; the former witness is evaluated on every run, see FORMER_WITNESSES), roundtrip-lossy, roundtrip-decode-fails, roundtrip-encode-fails,
+  copy unrolled to the recursion limit; the former witness is evaluated on every run, see FORMER_WITNESSES),
+  serializer-dict-leaks-instance, serializer-registry-dependent (F48, repaired: serialize({"k": node}) leaves forward-referenced
+  children as live instances / writes python names before and wire names after the class was registered; former witness
+  likewise), roundtrip-lossy, roundtrip-decode-fails, roundtrip-encode-fails,
   encode-decode-mismatch, encode-decode-fails, error-path-wrong, error-not-reported, error-not-valueerror,
   union-decode-fails, union-disc-wrong-variant, union-disc-unmapped-guessed, union-disc-retried, serializer-null-key,
   serializer-not-json, serializer-raises.
@@ -1911,6 +1911,8 @@ def _err_path(steps):
 FORMER_WITNESSES = [
     # F26: an instance whose `nxt: Optional["K"]` and `anyref: Any` both hold the instance itself
     json.loads('{"prop": "serializer", "decls": [["Kq0e0_1", {"fields": [{"n": "f", "t": {"opt": "str"}, "d": "none"}, {"n": "nxt", "t": {"opt": {"fwd": "Kq0e0_1"}}, "d": "none"}, {"n": "anyref", "t": "any", "d": "none"}], "load": [["a", "f"], ["Kind", "anyref"], ["\\u00e9", "nxt"]], "dump": [["anyref", "Kind"], ["nxt", "\\u00e9"], ["f", "a"]]}]], "ty": null, "heap": [[0, {"inst": "Kq0e0_1", "f": [["f", "x y"], ["nxt", {"ref": 0}], ["anyref", {"ref": 0}]]}]], "root": {"ref": 0}}'),
+    # F48: a dict holding instances of a class with a forward-referenced child list, serialised before and after registration
+    json.loads('{"prop": "serializer", "decls": [["Kq0e7_1", {"fields": [{"n": "b", "t": "bool", "d": "req"}, {"n": "user_id", "t": "bytes", "d": "req"}, {"n": "k2", "t": "bytes", "d": "req"}, {"n": "kind", "t": {"opt": {"dict": "any"}}, "d": "none"}, {"n": "nxt", "t": {"list": {"fwd": "Kq0e7_1"}}, "d": "list"}], "load": [["$ref", "nxt"], ["q\\"q", "b"], ["a-b", "user_id"], ["b", "k2"], ["_", "kind"]], "dump": [["kind", "_"], ["nxt", "$ref"], ["k2", "b"], ["b", "q\\"q"], ["user_id", "a-b"]]}]], "ty": null, "heap": [[0, {"dict": [["_1", {"ref": 1}], ["a", {"ref": 10}]]}], [1, {"inst": "Kq0e7_1", "f": [["b", true], ["user_id", {"bytes": "AAEC"}], ["k2", {"bytes": ""}], ["kind", {"ref": 2}], ["nxt", {"ref": 3}]]}], [2, {"dict": [["a", -40]]}], [3, {"list": [{"ref": 4}, {"ref": 7}]}], [4, {"inst": "Kq0e7_1", "f": [["b", true], ["user_id", {"bytes": "aGVsbG8gd29ybGQ="}], ["k2", {"bytes": ""}], ["kind", {"ref": 5}], ["nxt", {"ref": 6}]]}], [5, {"dict": []}], [6, {"list": []}], [7, {"inst": "Kq0e7_1", "f": [["b", false], ["user_id", {"bytes": "/+8="}], ["k2", {"bytes": "aGk="}], ["kind", {"ref": 8}], ["nxt", {"ref": 9}]]}], [8, {"dict": []}], [9, {"list": []}], [10, {"inst": "Kq0e7_1", "f": [["b", true], ["user_id", {"bytes": "/+8="}], ["k2", {"bytes": "aGVsbG8gd29ybGQ="}], ["kind", null], ["nxt", {"ref": 6}]]}]], "root": {"ref": 0}, "twice": true}'),
 ]
 
 
